@@ -179,7 +179,7 @@ Definition wf_app (A : app) : bool :=
   let n := length (a_classes A) in
   forallb (fun c => forallb (field_wf n) (c_fields c)) (a_classes A)
   && forallb (fun kv => match snd kv with Some (t, _) => ty_wf_top n t | None => true end) (a_registry A)
-  && forallb (fun kv => Nat.ltb (snd kv) n) (a_methods A).
+  && forallb (fun kv => ty_wf n (ms_ty (snd kv))) (a_methods A).
 
 Lemma wf_class_fields A c :
   wf_app A = true -> (c < length (a_classes A))%nat ->
@@ -203,15 +203,14 @@ Proof.
   - inversion H; subst. exact (W (x, Some (t, nil)) (or_introl eq_refl)).
   - apply IH; auto.
 Qed.
-Lemma wf_methods A k c :
-  wf_app A = true -> assoc k (a_methods A) = Some c -> (c < length (a_classes A))%nat.
+Lemma wf_methods A k m :
+  wf_app A = true -> assoc k (a_methods A) = Some m -> ty_wf (length (a_classes A)) (ms_ty m) = true.
 Proof.
   unfold wf_app. intros W H. apply andb_prop in W as [_ W].
   rewrite forallb_forall in W.
   induction (a_methods A) as [|[x v] r IH]; simpl in *; [discriminate|].
   destruct (text_eqb k x).
-  - inversion H; subst. specialize (W (x, c) (or_introl eq_refl)). simpl in W.
-    apply Nat.ltb_lt in W. exact W.
+  - inversion H; subst. exact (W (x, m) (or_introl eq_refl)).
   - apply IH; auto.
 Qed.
 Lemma find_field_wf n k fs f :
@@ -404,7 +403,7 @@ End XmlTotal.
 Lemma generate_method_contexts_safe A name :
   wf_app A = true ->
   safe (generate_method_contexts A name) /\
-  forall c, generate_method_contexts A name = Ret c -> (c < length (a_classes A))%nat.
+  forall m, generate_method_contexts A name = Ret m -> ty_wf (length (a_classes A)) (ms_ty m) = true.
 Proof.
   intros WF. unfold generate_method_contexts, get_call_handles.
   destruct name as [nm|].
@@ -447,7 +446,7 @@ Definition xml_request_ok (rq : xml_request) : Prop :=
 Lemma xml_decode_head_safe A rq :
   wf_app A = true -> xml_request_ok rq ->
   safe (xml_decode_head A rq) /\
-  forall c body, xml_decode_head A rq = Ret (c, body) -> (c < length (a_classes A))%nat.
+  forall m body, xml_decode_head A rq = Ret (m, body) -> ty_wf (length (a_classes A)) (ms_ty m) = true.
 Proof.
   intros WF [H1 H2]. unfold xml_decode_head.
   pose proof (xml_create_in_document_safe _ _ H1 H2) as Hc.
@@ -461,17 +460,18 @@ Qed.
 
 (** SOAP: the optional decoding with the declared charset raises UnicodeDecodeError at most (the
     charset itself was looked up by the transport) *)
+Definition SOAP_DECODE_RAISES := [EUnicodeError; EUnicodeDecodeError].
 Definition soap_request_ok (rq : soap_request) : Prop :=
-  match sr_decode rq with None => True | Some e => mem_exn e [EUnicodeDecodeError] = true end
+  match sr_decode rq with None => True | Some e => mem_exn e SOAP_DECODE_RAISES = true end
   /\ lib_in XML_FIRST (sr_first rq) /\ lib_in XML_SECOND (sr_second rq).
 
 Lemma soap_parse_safe d first second :
-  match d with None => True | Some e => mem_exn e [EUnicodeDecodeError] = true end ->
+  match d with None => True | Some e => mem_exn e SOAP_DECODE_RAISES = true end ->
   lib_in XML_FIRST first -> lib_in XML_SECOND second -> safe (soap_parse_xml_string d first second).
 Proof.
   unfold soap_parse_xml_string. intros Hd H1 H2.
   destruct d as [e|].
-  - case_mem Hd. conc.
+  - case_mem Hd; conc.
   - simpl. destruct first as [x|e]; [conc|].
     case_mem H1.
     + destruct second as [x|e2]; [conc|]. case_mem H2. conc.
@@ -487,7 +487,7 @@ Qed.
 Lemma soap_decode_head_safe ns A rq :
   wf_app A = true -> soap_request_ok rq ->
   safe (soap_decode_head ns A rq) /\
-  forall c body, soap_decode_head ns A rq = Ret (c, body) -> (c < length (a_classes A))%nat.
+  forall m body, soap_decode_head ns A rq = Ret (m, body) -> ty_wf (length (a_classes A)) (ms_ty m) = true.
 Proof.
   intros WF [Hd [H1 H2]]. unfold soap_decode_head.
   pose proof (soap_parse_safe _ _ _ Hd H1 H2) as Hp.
